@@ -52,3 +52,4 @@ CFG = {'level': 'exploration',
 CFG['level_text'] += ' An eighth of the module zips are extracted over leftovers of an earlier attempt (a file below subdirectories): a refusal is retried on a clean target, a success is judged like any extraction.'
 CFG['level_text'] += ' Half of the directory trees get a file added below a subdirectory after the first look and are hashed again with the same directory argument.'
 CFG['level_text'] += ' One history per run makes 450 refused HashZip/HashDir calls (newline names, an entry failing its checksum) with the process allowed only 48 more open files than it holds, and then requires a module zip made by zip.Create to hash, extract and agree with the formula.'
+CFG['level_text'] += ' One generated content in fourteen is a CRC-32 twin (same length, same checksum, other bytes) of another file of the set.'
